@@ -22,6 +22,9 @@ MODELLED_NOT_VERIFIED = [
     "from the top-most ancestor AND the parent pointer and child list of EVERY node of the case, detached ones included (what "
     "remove_child leaves in the removed node, Edge.collapse in the dissolved one, the emptied child list of a suppressed node); "
     "the reseed chain is compared with Tree.reseed_at itself (all clean-up switched off)",
+    "C03: Heap.supStep / Heap.supLoop (pointer-level loop of suppress_unifurcations, theorem suppressLoop_repr) are executable in "
+    "the driver (`heap suppress <tree>`) but no generated case compares them with the library yet; a one-off comparison on "
+    "random trees was made when they were written",
     "C03: Gen/C03Guards.lean (decision kernels of collapse_unweighted_edges, reseed_at / encode_bipartitions guards, "
     "collapse_basal_bifurcation, remove_child(suppress), suppress_unifurcations, resolve_polytomies; defaults) is regenerated from "
     "the source on every run by harness/gen/c03guards.py (trusted: its atom table - which sub-expression is which atom); the "
@@ -62,9 +65,12 @@ EXPLANATION = ("Theorems (Props/C03.lean, no sorry/axioms): step_wf / history_wf
                "suppress_unifurcations branch of remove_child, non-root and root case, end to end), removeChild_error_refines (where "
                "`step` answers ValueError the pointer routine raises before touching a pointer), insertMove_refines (insert_child of "
                "a node that already is a child), repr_is_arborescence (what Repr + no sharing says on the pointers alone: clause (a) "
-               "literally), CLAUSE (c): encodeStruct_is_C01 / encode_is_fresh / step_update_is_fresh (for 11 operations asked to update "
+               "literally), suppressLoop_repr/_refines (the loop of Tree.suppress_unifurcations as written - post-order, one-child nodes "
+               "spliced out at their position, seed case - leaves a heap that represents the tree-level `sup`), reseedAt_refines "
+               "(reseed_at with suppress_unifurcations=True IN FULL for an internal new seed: chain, guarded basal Edge.collapse, "
+               "suppression loop), CLAUSE (c): encodeStruct_is_C01 / encode_is_fresh / step_update_is_fresh (for 12 operations, reroot_at_edge included, asked to update "
                "bipartitions the returned state is the output of a final encode_bipartitions call, whose encoding per C01's model "
-               "equals a fresh non-restructuring encoding of the returned tree; not reroot_at_edge / to_outgroup_position / "
+               "equals a fresh non-restructuring encoding of the returned tree; not to_outgroup_position / "
                "suppress_unifurcations / randomly_reorient), the ERROR CLAUSE: errState_wf (the state a raising operation leaves behind - `errState`, run by the driver "
                "and compared with the real tree after every raise - has no shared node), errState_unchanged (every operation "
                "but filter_leaf_nodes raises before its first write), filterLeaves_error_state (filter_leaf_nodes leaves the bare "
@@ -74,9 +80,10 @@ EXPLANATION = ("Theorems (Props/C03.lean, no sorry/axioms): step_wf / history_wf
                "reseedAt_refines_partial = the same for reseed_at with both clean-up flags off); tie (A): gen_* (15 theorems: the "
                "decision kernels regenerated from the source are the model's); polytomize_fixpoint, "
                "dropLeavesFix_fixpoint, filterLoop_fixpoint, pruneUp_fuel_suffices (fuel of every bounded loop suffices). Not "
-               "proved, only modelled and compared with the code every run: the pointer-level suppress_unifurcations loop and the "
-               "leaf-target clean-up after the inversion chain (so reseedAt_refines_partial / reseedAt_collapse_refines stop at "
-               "suppress_unifurcations=False); pointer-level refinement of filter_leaf_nodes' raising "
+               "proved, only modelled and compared with the code every run: the leaf-target clean-up after the inversion chain "
+               "(a LEAF as new seed, outside the documented domain: reseedAt_refines assumes an internal new seed); the pointer-level "
+               "supStep / supLoop are run by the driver (`heap suppress`) but are not among the generated heap cases yet (only their "
+               "tree-level counterpart `sup` is compared every run); pointer-level refinement of filter_leaf_nodes' raising "
                "path (its partially mutated state is modelled at tree level only); that the library's stored masks are the fresh ones (oracle; C01's property); reroot_at_midpoint and "
                "resolve_polytomies with a real random.Random (oracle only). The driver runs `step` per "
                "operation and `runE` on whole histories without node-creating operations.")
